@@ -128,9 +128,15 @@ def execute(sc):
     h = cls(seed=sc["seed"], num_probes=S)
 
     def rad(k, shape):
-        if tuple(shape) != C.shape:
-            raise AssertionError(f"handler asked for probes of shape {shape}, the complete cube has {C.shape}")
-        return C
+        # whatever shape the handler asks for, it gets the complete sign cube of that (n, d), repeated / cut to length
+        shape = tuple(shape)
+        if shape == C.shape:
+            return C
+        if len(shape) == 3:
+            Cs = cube(shape[1], shape[2])
+            reps = -(-shape[0] // Cs.shape[0])
+            return onp.concatenate([Cs] * reps)[: shape[0]]
+        return onp.ones(shape)
 
     script = randseam.Script(rademacher_fn=rad)
     with randseam.scripted(script):
@@ -167,6 +173,50 @@ def execute(sc):
         if any(k in seen_states for k in used):
             viol.append({"inv": "JAC-key", "msg": "a threaded state key was itself used to draw probes"})
     probes["cube_probes"] = S * len(sc["calls"])
+    # ---- arbitrary (also odd) probe counts: the estimate must be the plain average of the documented
+    #      contributions v (J v)^T of exactly the probes that were drawn, each counted once
+    if not viol:
+        import random
+
+        rng = random.Random(sc["seed"])
+        for s_count in (1, 3, sc.get("num_probes_extra", 5), 10):
+            hx = cls(seed=sc["seed"], num_probes=s_count)
+            drawn = []
+
+            def rad2(k, shape):
+                V = onp.array([rng.choice([-1.0, 1.0]) for _ in range(int(onp.prod(shape)))]).reshape(shape)
+                drawn.append(V)
+                return V
+
+            with randseam.scripted(randseam.Script(rademacher_fn=rad2)):
+                key = hx.init_jacobian_handler()
+                _, est_t, key = hx.calculate_trace_along_d(fun, x, key)
+                n_t = len(drawn)
+                _, est_d, key = hx.calculate_diagonal_along_d(fun, x, key)
+            for est, V, kind in ((est_t, drawn[:n_t], "trace"), (est_d, drawn[n_t:], "diag")):
+                if len(V) != 1 or V[0].ndim != 3 or V[0].shape[1:] != (nprobe_dim, d):
+                    viol.append({"inv": "JAC-unbiased", "msg": f"{sc['mode']} handler {kind} with num_probes={s_count}: drew probes of shapes {[v.shape for v in V]}, expected one draw of ({s_count}, {nprobe_dim}, {d})"})
+                    break
+                Vk = V[0]
+                if sc["mode"] == "fwd":
+                    Jv = onp.einsum("ndme,sme->snd", J, Vk)           # (s, n_out, d)
+                    contrib_t = onp.einsum("smd,snd->snm", Vk, Jv)     # (s, n_out, n_in)
+                    contrib_d = onp.einsum("smd,snd->sdnm", Vk, Jv)    # (s, d, n_out, n_in)
+                else:
+                    vj = onp.einsum("sme,mend->snd", Vk, J)           # (s, n_in, d)
+                    contrib_t = onp.einsum("snd,smd->smn", vj, Vk)     # (s, n_out, n_in)
+                    contrib_d = onp.einsum("snd,smd->sdmn", vj, Vk)    # (s, d, n_out, n_in)
+                want = (contrib_t if kind == "trace" else contrib_d).mean(axis=0)
+                if Vk.shape[0] != s_count:
+                    want = want  # the average is over the probes actually drawn; a different count is reported below
+                got = onp.asarray(est)
+                ee = float(onp.max(onp.abs(got - want))) / scale if got.shape == want.shape else float("inf")
+                if ee > 1e-11 or Vk.shape[0] != s_count:
+                    viol.append({"inv": "JAC-unbiased", "msg": f"{sc['mode']} handler {kind} with num_probes={s_count}: estimate is not the average over the {Vk.shape[0]} probes drawn (error {ee:.2e}); a biased average cannot be exactly unbiased"})
+                    break
+            if viol:
+                break
+        probes["odd_probe_counts_checked"] = 1
     # ---- determinism with the real source: equal inputs give equal outputs
     h2 = cls(seed=sc["seed"], num_probes=7)
     k0 = h2.init_jacobian_handler()
